@@ -9,6 +9,13 @@ Rules (applied bottom-up, to a fixpoint; the result is a deep copy, the parsed m
   const    a Name that is not bound in the function and has exactly ONE module-level binding to a literal (also through
            `from pyxel.x import NAME`) is replaced by the literal
   match    `match <path>: case <literal | dotted name | None | a | b>: ... case _: ...`  ->  if / elif / else on `==` (`is`)
+           `case C():` (class pattern without sub-patterns) -> `isinstance(<subject>, C)`
+  unpack   `a, b = X, Y` (distinct plain names, same length, no later value reads an earlier target) -> `a = X` `b = Y`
+  with     `with A as a, B as b: body` -> `with A as a:` `with B as b: body` (one item per statement)
+  build    `dict(<generator / list comprehension of (k, v) pairs>)` -> dict comprehension; `list(<generator>)` / `set(<generator>)`
+           -> list / set comprehension   (builtins not shadowed in the function)
+  partial  a local with ONE binding `p = partial(f, a, k=v)` / `functools.partial(...)` (not in a loop, arguments paths / literals
+           that no later statement stores to) that is only ever CALLED: `p(x, y=z)` -> `f(a, x, k=v, y=z)`
   attr     getattr(o, "name") -> o.name ;  setattr(o, "name", v) -> o.name = v          (identifier literals only)
   unroll   `for x in (<literals>): body` (no break / continue / else, x not rebound) -> the bodies, x replaced
   literal  `d = {...}` directly followed by `d["k"] = v` statements -> one dict literal
@@ -24,7 +31,10 @@ Rules (applied bottom-up, to a fixpoint; the result is a deep copy, the parsed m
   alias    a local with ONE binding (not in a loop) whose value is a path (`a.b["k"]`) is replaced by that path in all its
            uses unless a later statement stores to that path or to a prefix of it (stores are looked at through all other
            path aliases); a local with one binding and ONE use whose value is any expression is replaced unless a later
-           statement stores to something the expression reads, or the use is evaluated repeatedly (loop / comprehension body)
+           statement stores to something the expression reads, or the use is evaluated repeatedly (loop / comprehension body);
+           a local with one binding whose value is a PURE, idempotent builtin call over paths / literals (`type(x)`, `id(x)`,
+           `isinstance(x, C)`; the builtin not shadowed in the function) is replaced in ALL its uses unless a later statement
+           stores to one of the paths it reads, to a prefix of one, or to `<path>.__class__`
   dispatch a local dict literal with literal keys that is only indexed (`D[x]`) and tested (`x in D`) -> if / elif on `==`
   inline   a call to a PRIVATE function of the package (module-level function, also imported with `from pyxel.x import _f`;
            `self._m(...)` / `cls._m(...)` / `Class._m(...)` of the same class or a base class) is replaced by its normalised
@@ -77,6 +87,28 @@ def path_of(e):
             return tuple(out[::-1])
         else:
             return None
+
+
+PURE_BUILTINS = {"type": 1, "id": 1, "isinstance": 2, "issubclass": 2}
+
+
+def is_pure_call(e, bound=()) -> bool:
+    """`type(x)` / `id(x)` / `isinstance(x, C)` over paths, literals and pure calls, identity tests (`is` / `is not`) between
+    such operands and `not` / `and` / `or` of those: no side effect, and the same value every time it is evaluated as long as
+    nothing it reads is stored to (checked by the caller)."""
+    def operand(a):
+        return path_of(a) is not None or isinstance(a, ast.Constant) or is_pure_call(a, bound)
+    if isinstance(e, ast.Compare):
+        return all(isinstance(o, (ast.Is, ast.IsNot)) for o in e.ops) and all(operand(a) for a in [e.left] + e.comparators)
+    if isinstance(e, ast.UnaryOp) and isinstance(e.op, ast.Not):
+        return is_pure_call(e.operand, bound)
+    if isinstance(e, ast.BoolOp):
+        return all(is_pure_call(v, bound) for v in e.values)
+    if not (isinstance(e, ast.Call) and isinstance(e.func, ast.Name) and e.func.id in PURE_BUILTINS and e.func.id not in bound
+            and not e.keywords and len(e.args) == PURE_BUILTINS[e.func.id]):
+        return False
+    return all(path_of(a) is not None or is_literal(a) or is_pure_call(a, bound)
+               or (isinstance(a, ast.Tuple) and all(path_of(x) is not None for x in a.elts)) for a in e.args)
 
 
 def is_prefix(a, b) -> bool:
@@ -358,6 +390,7 @@ class Normalizer:
             rewrite_blocks(fn, self._block_pass(rel, cls, depth))
             procedure_tail(fn)
             dispatch_dicts(fn)
+            expand_partials(fn)
             fn = _Exprs(self, rel, cls, depth, bound_names(fn)).visit(fn)
             subst_aliases(fn)
             ast.fix_missing_locations(fn)
@@ -371,6 +404,8 @@ class Normalizer:
         def f(blk):
             blk = drop_noise(blk)
             blk = match_to_if(blk)
+            blk = split_withs(blk)
+            blk = split_tuple_assign(blk)
             blk = unroll_loops(blk)
             blk = setattr_stmts(blk)
             blk = merge_dict_stores(blk)
@@ -597,6 +632,16 @@ class _Exprs(ast.NodeTransformer):
                 and not n.keywords and isinstance(n.args[1], ast.Constant) and isinstance(n.args[1].value, str) \
                 and n.args[1].value.isidentifier():
             return ast.copy_location(ast.Attribute(value=n.args[0], attr=n.args[1].value, ctx=ast.Load()), n)
+        if isinstance(n.func, ast.Name) and n.func.id in ("dict", "list", "set") and n.func.id not in self.bound \
+                and len(n.args) == 1 and not n.keywords and isinstance(n.args[0], (ast.GeneratorExp, ast.ListComp)):
+            g = n.args[0]
+            if n.func.id == "dict":
+                if isinstance(g.elt, ast.Tuple) and len(g.elt.elts) == 2 and not any(isinstance(e, ast.Starred) for e in g.elt.elts):
+                    return ast.copy_location(ast.DictComp(key=g.elt.elts[0], value=g.elt.elts[1], generators=g.generators), n)
+            elif n.func.id == "list":
+                return ast.copy_location(ast.ListComp(elt=g.elt, generators=g.generators), n)
+            elif isinstance(g, ast.GeneratorExp) or True:
+                return ast.copy_location(ast.SetComp(elt=g.elt, generators=g.generators), n)
         got = self.norm.inlined(n, self.rel, self.cls, self.depth, self.bound)
         if got is not None:
             body, binding = got
@@ -664,6 +709,8 @@ def _pattern_test(subject, p):
         return ast.Compare(left=copy.deepcopy(subject), ops=[ast.Eq()], comparators=[p.value])
     if isinstance(p, ast.MatchSingleton):
         return ast.Compare(left=copy.deepcopy(subject), ops=[ast.Is()], comparators=[ast.Constant(value=p.value)])
+    if isinstance(p, ast.MatchClass) and not p.patterns and not p.kwd_patterns and path_of(p.cls) is not None:
+        return ast.Call(func=ast.Name(id="isinstance", ctx=ast.Load()), args=[copy.deepcopy(subject), p.cls], keywords=[])
     if isinstance(p, ast.MatchOr):
         ts = [_pattern_test(subject, q) for q in p.patterns]
         return None if any(t is None for t in ts) else ast.BoolOp(op=ast.Or(), values=ts)
@@ -698,6 +745,35 @@ def match_to_if(blk):
         for t, body in reversed(arms):
             node = [ast.copy_location(ast.If(test=t, body=body, orelse=node), s)]
         out += node
+    return out
+
+
+def split_tuple_assign(blk):
+    out = []
+    for s in blk:
+        if isinstance(s, ast.Assign) and len(s.targets) == 1 and isinstance(s.targets[0], (ast.Tuple, ast.List)) \
+                and isinstance(s.value, (ast.Tuple, ast.List)) and len(s.targets[0].elts) == len(s.value.elts) \
+                and all(isinstance(t, ast.Name) for t in s.targets[0].elts) \
+                and not any(isinstance(v, ast.Starred) for v in s.value.elts) \
+                and len({t.id for t in s.targets[0].elts}) == len(s.value.elts):
+            names = [t.id for t in s.targets[0].elts]
+            if not any(_uses(names[i], v) for i in range(len(names)) for v in s.value.elts[i + 1:]):
+                out += [ast.copy_location(ast.Assign(targets=[t], value=v), s) for t, v in zip(s.targets[0].elts, s.value.elts)]
+                continue
+        out.append(s)
+    return out
+
+
+def split_withs(blk):
+    out = []
+    for s in blk:
+        if isinstance(s, ast.With) and len(s.items) > 1:
+            node = s.body
+            for it in reversed(s.items):
+                node = [ast.copy_location(ast.With(items=[it], body=node), s)]
+            out += node
+        else:
+            out.append(s)
     return out
 
 
@@ -949,6 +1025,51 @@ def dispatch_dicts(fn):
         return dispatch_dicts(fn)
 
 
+def expand_partials(fn):
+    """`p = partial(f, a, k=v)` (one binding, not in a loop, `p` only ever called) : `p(x, y=z)` -> `f(a, x, k=v, y=z)`."""
+    params = {a.arg for a in fn.args.args + fn.args.kwonlyargs + fn.args.posonlyargs}
+    bound = bound_names(fn)
+    pre = _preorder(fn)
+    stores = [_store_targets(s) for s, _, _, _ in pre]
+    for k, (s, blk, i, loop) in enumerate(pre):
+        if not (isinstance(s, ast.Assign) and len(s.targets) == 1 and isinstance(s.targets[0], ast.Name) and not loop
+                and isinstance(s.value, ast.Call)):
+            continue
+        f = s.value.func
+        if not ((isinstance(f, ast.Name) and f.id == "partial" and "partial" not in bound)
+                or (isinstance(f, ast.Attribute) and f.attr == "partial" and isinstance(f.value, ast.Name)
+                    and f.value.id == "functools" and "functools" not in bound)):
+            continue
+        name, c = s.targets[0].id, s.value
+        if name in params or not c.args or any(isinstance(a, ast.Starred) for a in c.args) or any(kw.arg is None for kw in c.keywords):
+            continue
+        parts = list(c.args) + [kw.value for kw in c.keywords]
+        if not all(path_of(a) is not None or is_literal(a) for a in parts):
+            continue
+        binds = [n for n in ast.walk(fn) if isinstance(n, ast.Name) and n.id == name and not isinstance(n.ctx, ast.Load)]
+        loads = [n for n in ast.walk(fn) if isinstance(n, ast.Name) and n.id == name and isinstance(n.ctx, ast.Load)]
+        later = {id(n) for t in blk[i + 1:] for n in ast.walk(t)}
+        calls = [n for n in ast.walk(fn) if isinstance(n, ast.Call) and isinstance(n.func, ast.Name) and n.func.id == name
+                 and not any(isinstance(a, ast.Starred) for a in n.args) and not any(kw.arg is None for kw in n.keywords)]
+        if len(binds) != 1 or not loads or len(calls) != len(loads) or any(id(n) not in later for n in loads):
+            continue
+        reads = [p for a in parts for p in read_paths(a)]
+        after = [t for ts in stores[k + 1:] for t in ts]
+        if any(is_prefix(t, r) for t in after for r in reads):
+            continue
+        for n in calls:
+            kws = {kw.arg: kw.value for kw in c.keywords}
+            kws.update({kw.arg: kw.value for kw in n.keywords})          # the call's keywords override the partial's
+            n.func = copy.deepcopy(c.args[0])
+            n.args = [copy.deepcopy(a) for a in c.args[1:]] + n.args
+            n.keywords = [ast.keyword(arg=a, value=copy.deepcopy(v)) for a, v in kws.items()]
+        blk.remove(s)
+        if not blk:
+            blk.append(ast.Pass())
+        ast.fix_missing_locations(fn)
+        return expand_partials(fn)
+
+
 def procedure_tail(fn):
     """in a function that never returns a value:  `if c: return` + rest (up to the end of the function)  ->  `if not c: rest`;
     a bare `return` at the very end is dropped."""
@@ -1100,7 +1221,8 @@ def subst_aliases(fn):
                 continue
             is_path = path_of(s.value) is not None
             is_lit = is_literal(s.value) and not any(isinstance(n, (ast.List, ast.Set)) for n in ast.walk(s.value))
-            if not is_path and not is_lit and (len(loads) != 1 or id(loads[0]) in multi):
+            is_pure = is_pure_call(s.value, counts)
+            if not is_path and not is_lit and not is_pure and (len(loads) != 1 or id(loads[0]) in multi):
                 continue
             reads = [expand(p) for p in read_paths(s.value)]
             after = [t for ts in stores[k + 1:] for t in ts]
@@ -1108,6 +1230,12 @@ def subst_aliases(fn):
                 clash = False                 # an immutable literal
             elif is_path:
                 clash = any(is_prefix(t, r) for t in after for r in reads)
+            elif is_pure:
+                # type(x) / id(x) / isinstance(x, C) depend on which object x is and on its class only: a store INTO x
+                # (x.a = ..., x["k"] = ..., x.update(...)) does not change them, a store to x, to a prefix of x or to
+                # x.__class__ does
+                clash = any(is_prefix(t, r) or (is_prefix(r, t) and len(t) > len(r) and t[len(r)] == (".", "__class__"))
+                            for t in after for r in reads)
             else:
                 clash = any(is_prefix(t, r) or is_prefix(r, t) for t in after for r in reads)
             if clash:
